@@ -240,7 +240,9 @@ class Observable(Part):
     def strategy(self, tier):
         @st.composite
         def strat(draw):
-            c = draw(gen.corpus_case(max_extent=3))
+            # weighted towards dynamic partitioning, flattening and index math: that is where statements sit between loops
+            c = draw(gen.corpus_case(max_extent=3, families=("occ", "occ", "occ", "flat", "flat", "affine", "affine", "shape",
+                                                             "cascade", "plain")))
             c["choices"] = draw(st.lists(st.integers(0, 7), min_size=8, max_size=40))
             return c
         return strat()
